@@ -494,6 +494,7 @@ class Index(IndexBase):
         for key, value in state[1].items():
             setattr(self, key, value)
         self._labels.flags.writeable = False
+        self._positions.flags.writeable = False
 
     def __deepcopy__(self: I, memo: tp.Dict[int, tp.Any]) -> I:
         if self._recache:
